@@ -63,6 +63,16 @@ def restrict(js, inp):
     return js
 
 
+def versions_of(k):
+    """spec versions under which class k is registered (objects / observables)"""
+    out = []
+    for ver, cats in registry.STIX2_OBJ_MAPS.items():
+        for cat in ("objects", "observables"):
+            if any(c is k for c in cats.get(cat, {}).values()):
+                out.append(ver)
+    return sorted(set(out))
+
+
 def ok(o, inp, with_class=True):
     js = restrict(as_json(o), inp)
     if isinstance(o, _STIXBase):
@@ -71,18 +81,22 @@ def ok(o, inp, with_class=True):
         c = "dict"
     else:
         c = "other:" + type(o).__name__
-    return ["ok", c if with_class else None, canon(js)]
+    return ["ok", c if with_class else None, canon(js), versions_of(type(o)) if isinstance(o, _STIXBase) else None]
 
 
-def exc(e):
-    return ["exc", type(e).__name__, clsname(getattr(e, "cls", None)), getattr(e, "prop_name", None)]
+def exc(e, inp=None):
+    k = getattr(e, "cls", None)
+    vers = None
+    if isinstance(k, type) and isinstance(inp, dict) and getattr(k, "_type", None) == inp.get("type"):
+        vers = versions_of(k)          # the error names the class chosen for the top-level object
+    return ["exc", type(e).__name__, clsname(k), getattr(e, "prop_name", None), vers]
 
 
-def guard(f):
+def guard(f, inp=None):
     try:
         return f()
     except Exception as e:  # noqa: BLE001 -- every exception is an observation
-        return exc(e)
+        return exc(e, inp)
 
 
 def kw(cfg, names):
@@ -122,6 +136,18 @@ def single(res, inp, with_class=True):
     return ok(res, inp, with_class)
 
 
+BUNDLE_ID = "bundle--5d0092c5-5f74-4287-9642-33f4c354e56d"
+
+
+def bundle_of(d):
+    """the bundle a FileSystemSink(bundlify=True) would have written around d"""
+    b = {"type": "bundle", "id": BUNDLE_ID}
+    if "spec_version" not in d:
+        b["spec_version"] = "2.0"
+    b["objects"] = [d]
+    return b
+
+
 def write_fs(d, root, bundled=False):
     t = d["type"]
     tdir = os.path.join(root, t)
@@ -133,7 +159,7 @@ def write_fs(d, root, bundled=False):
         fn = os.path.join(tdir, d["id"] + ".json")
     os.makedirs(odir, exist_ok=True)
     with io.open(fn, "w", encoding="utf-8") as f:
-        json.dump(d, f)
+        json.dump(bundle_of(d) if bundled else d, f)
 
 
 def read_sink_dir(root, inp):
@@ -147,13 +173,13 @@ def read_sink_dir(root, inp):
         return ["none"]
     if len(found) > 1:
         return ["many", len(found)]
-    return ["ok", None, canon(restrict(found[0], inp))]
+    return ["ok", None, canon(restrict(found[0], inp)), None]
 
 
 def mem_saved(sink, inp):
     """A MemorySink has no read side (save_to_file re-validates what it holds inside a new
     Bundle, so it is not an observation of what was accepted): acceptance only."""
-    return ["ok", None, None]
+    return ["ok", None, None, None]
 
 
 def run_entry(name, cfg, d):
@@ -169,16 +195,16 @@ def run_entry(name, cfg, d):
         if fn is None:
             fn = stix2.Environment().parse
         k = kw(cfg, ("allow_custom", "interoperability", "version"))
-        return guard(lambda: ok(fn(d, **k), d)), ["parse", own_allow(cfg, stix2.parse), io_own]
+        return guard(lambda: ok(fn(d, **k), d), d), ["parse", own_allow(cfg, stix2.parse), io_own]
     if name == "parsing.parse_observable":
         k = kw(cfg, ("allow_custom", "interoperability", "version"))
-        return guard(lambda: ok(stix2.parse_observable(d, **k), d)), ["parse_observable", own_allow(cfg, stix2.parse_observable), io_own]
+        return guard(lambda: ok(stix2.parse_observable(d, **k), d), d), ["parse_observable", own_allow(cfg, stix2.parse_observable), io_own]
 
     wrap = cfg.get("wrap")          # hand the object over inside a bundle dict / a list
 
     def payload():
         if wrap == "bundle":
-            return {"type": "bundle", "id": "bundle--5d0092c5-5f74-4287-9642-33f4c354e56d", "objects": [d]}
+            return {"type": "bundle", "id": BUNDLE_ID, "objects": [d]}
         if wrap == "list":
             return [d]
         return d
@@ -193,7 +219,7 @@ def run_entry(name, cfg, d):
             if C is MemorySink:
                 return mem_saved(s, d)
             return single(s.get(oid), d)
-        return guard(f), ["parse", own_allow(cfg, C.__init__), False]
+        return guard(f, d), ["parse", own_allow(cfg, C.__init__), False]
     if name in ("memory.MemoryStore.add", "memory.MemorySink.add"):
         C = MemoryStore if name.startswith("memory.MemoryStore") else MemorySink
 
@@ -203,7 +229,7 @@ def run_entry(name, cfg, d):
             if C is MemorySink:
                 return mem_saved(s, d)
             return single(s.get(oid), d)
-        return guard(f), ["parse", own_allow(cfg, C.__init__), False]
+        return guard(f, d), ["parse", own_allow(cfg, C.__init__), False]
     if name in ("memory.MemoryStore.load_from_file", "memory.MemorySource.load_from_file"):
         C = MemoryStore if name.startswith("memory.MemoryStore") else MemorySource
 
@@ -215,7 +241,7 @@ def run_entry(name, cfg, d):
             s = C(**ck)
             s.load_from_file(p, **vk)
             return single(s.get(oid), d)
-        return guard(f), ["parse", own_allow(cfg, C.__init__), False]
+        return guard(f, d), ["parse", own_allow(cfg, C.__init__), False]
     if name.startswith("filesystem.FileSystemSource.") or name in (
             "filesystem.FileSystemStore.get", "filesystem.FileSystemStore.all_versions", "filesystem.FileSystemStore.query"):
         C = FileSystemSource if "FileSystemSource" in name else FileSystemStore
@@ -223,14 +249,14 @@ def run_entry(name, cfg, d):
 
         def f():
             root = fresh_dir()
-            write_fs(d, root)
+            write_fs(d, root, bundled=(wrap == "bundlefile"))
             s = C(root, **ck)
             if m == "query":
                 r = s.query([Filter("id", "=", oid)], **vk)
             else:
                 r = getattr(s, m)(oid, **vk)
             return single(r, d)
-        return guard(f), ["parse", own_allow(cfg, C.__init__, split=True), False]
+        return guard(f, d), ["parse", own_allow(cfg, C.__init__, split=True), False]
     if name in ("filesystem.FileSystemSink.add", "filesystem.FileSystemStore.add"):
         C = FileSystemSink if "FileSystemSink" in name else FileSystemStore
 
@@ -239,13 +265,18 @@ def run_entry(name, cfg, d):
             s = C(root, **ck)
             s.add(payload(), **vk)
             return read_sink_dir(root, d)
-        return guard(f), ["parse", own_allow(cfg, C.__init__, split=False), False]
+        return guard(f, d), ["parse", own_allow(cfg, C.__init__, split=False), False]
     return ["undriven", name], ["parse", False, False]
 
 
 def run_direct(fn, ac, io_, v, d):
     f = stix2.parse if fn == "parse" else stix2.parse_observable
-    return guard(lambda: ok(f(d, allow_custom=ac, interoperability=io_, version=v), d))
+    return guard(lambda: ok(f(d, allow_custom=ac, interoperability=io_, version=v), d), d)
+
+
+def run_direct_bundle(ac, io_, v, d):
+    """what reading d out of a bundle file must amount to: parse the bundle, take its first member"""
+    return guard(lambda: ok(stix2.parse(bundle_of(d), allow_custom=ac, interoperability=io_, version=v)["objects"][0], d), d)
 
 
 # ---------------------------------------------------------------------------
@@ -266,7 +297,8 @@ def op_probe(c):
         ents.append(o)
         owns.append(own)
     dirs = [run_direct(fn, ac, io_, v, d) for fn, ac, io_, v in c.get("direct", [])]
-    return {"entries": ents, "own": owns, "direct": dirs}
+    bdirs = [run_direct_bundle(ac, io_, v, d) for ac, io_, v in c.get("direct_bundle", [])]
+    return {"entries": ents, "own": owns, "direct": dirs, "direct_bundle": bdirs}
 
 
 def show_detect(r):
